@@ -1,6 +1,7 @@
 """C10 — distance queries are exact and schedule independent (guards, exactly-once responses, removal window)."""
 import storelib as S
 from lib import ExprBuilder, path_conditions, reachable_bodies, upvar_expr
+from mir import norm
 from linear import destroyed
 
 EXPLANATION = (
@@ -34,6 +35,42 @@ def run(ctx):
     ctx.floor('R10.5', S.rule_track_distances(ctx, 'R10.5'), 7)
 
 
+def mode_off_variants(ctx):
+    """when the public `only_baked: bool` of foreign_track_distances travels to the worker as a private two-valued enum:
+    {(enum path, variant)} built on the `only_baked == false` side (found in the function that takes the bool)"""
+    F = ctx.F
+    cache = F.__dict__.setdefault('_c10_mode', None)
+    if cache is not None:
+        return cache
+    out = set()
+    b = F.one(S.STORE + '::foreign_track_distances')
+    if b is not None:
+        bools = [i for i in range(1, b.nargs + 1) if b.locals[i] == 'bool']
+        from lib import all_closures
+        for cb in [b] + all_closures(F, b):
+            for i in sorted(cb.live_blocks()):
+                for s_ in cb.blocks[i]['st']:
+                    rv = s_.get('rv') or {}
+                    if s_['k'] == 'assign' and rv.get('k') == 'agg' and rv.get('ak') == 'adt' and not rv.get('ops') \
+                            and rv.get('adt', '').startswith('track::store'):
+                        for k in path_conditions(cb, i):
+                            if k.kind == 'bool' and k.truth is False and k.expr.strip().kind == 'place' and \
+                                    cb is b and k.expr.strip().root[0] == 'param' and k.expr.strip().root[1] in bools:
+                                out.add((norm(rv['adt']), rv['v']))
+    F.__dict__['_c10_mode'] = out
+    return out
+
+
+def enum_mode_off(conds, off_variants):
+    """a path condition `mode is V` where V is the variant that stands for only_baked == false"""
+    for k in conds:
+        if k.kind == 'discr' and k.variants and len(k.variants) == 1:
+            ty = norm(getattr(k, 'enum_ty', '') or '')
+            if (ty, list(k.variants)[0]) in off_variants:
+                return True
+    return False
+
+
 def r1(ctx):
     R = 'R10.1'
     ctx.rule(R, 'Track::distances only for different ids, and only for Ready tracks when only_baked; only '
@@ -58,9 +95,20 @@ def r1(ctx):
                 for k in conds:
                     cm = k.cmp()
                     if cm and cm[0] == 'Ne':
-                        pa = [p for p in cm[1].places() if p.fields[-1:] == ('track_id',)]
-                        pb = [p for p in cm[2].places() if p.fields[-1:] == ('track_id',)]
-                        if pa and pb and pa[0].root != pb[0].root:
+                        # (an id read once before the scan and captured by the closure is still the id)
+                        from lib import subst_upvars
+
+                        def id_of(e):
+                            """whose track_id an expression reads (None when it is not a track id)"""
+                            for x in (e, subst_upvars(F, b, e)):
+                                for y in x.walk():
+                                    if y.kind == 'place' and y.fields[-1:] == ('track_id',):
+                                        return ('place', y.root, tuple(y.fields[:-1]))
+                                    if y.kind == 'call' and tuple(str(q) for q in y.proj[-1:]) == ('track_id',):
+                                        return ('call', repr(y)[:-len('.track_id')])
+                            return None
+                        ia, ib = id_of(cm[1]), id_of(cm[2])
+                        if ia is not None and ib is not None and ia != ib:
                             diff = True
                 ctx.check(diff, R, b, 'distances:not-self#%d' % n, 'reached only when track_id != other.track_id',
                           'Track::distances is reachable without the `track.track_id != other.track_id` guard: a '
@@ -68,9 +116,10 @@ def r1(ctx):
                 # (b) readiness
                 from lib import expand_conditions
                 flag_false = ready = okres = True
+                off_variants = mode_off_variants(ctx)
                 for cv in expand_conditions(b, conds):
                     flag = [k for k in cv if k.kind == 'bool' and k.expr.strip().kind == 'place']
-                    ff = any(k.truth is False for k in flag)
+                    ff = any(k.truth is False for k in flag) or enum_mode_off(cv, off_variants)
                     rd = any(k.kind == 'discr' and getattr(k, 'enum_ty', '').startswith('track::TrackStatus')
                              and k.variants == {'Ready'} for k in cv)
                     okr = any(k.kind == 'discr' and k.variants == {'Ok'} and k.expr.has_call('baked') for k in cv)
@@ -79,11 +128,22 @@ def r1(ctx):
                     flag_false = flag_false and ff
                     ready = ready and rd
                     okres = okres and okr
+                from lib import paths_to
+                variants = expand_conditions(b, conds)
+                if not (any(k.kind == 'discr' and k.variants == {'Ready'} for cv in variants for k in cv) or
+                        any(k.kind == 'bool' and k.expr.strip().kind == 'place' for cv in variants for k in cv) or
+                        any(enum_mode_off(cv, off_variants) for cv in variants)):
+                    # no necessary guard at all: the guard may be a disjunction (`if only_baked && !ready { return }`):
+                    # judge every path to the call on its own
+                    pt = paths_to(b, c.bb)
+                    if pt:
+                        variants = pt
                 good = all((any(k.truth is False for k in cv if k.kind == 'bool' and k.expr.strip().kind == 'place')) or
+                           enum_mode_off(cv, off_variants) or
                            (any(k.kind == 'discr' and getattr(k, 'enum_ty', '').startswith('track::TrackStatus') and
                                 k.variants == {'Ready'} for k in cv) and
                             any(k.kind == 'discr' and k.variants == {'Ok'} and k.expr.has_call('baked') for k in cv))
-                           for cv in expand_conditions(b, conds))
+                           for cv in variants)
                 ctx.check(good, R, b, 'distances:ready-when-only-baked#%d' % n,
                           'guard: %s' % ('!only_baked' if flag_false else 'baked()==Ok(Ready)'),
                           'with only_baked set, Track::distances is reachable for tracks whose status is not '
